@@ -55,6 +55,7 @@ def run(spec):
     cpu_limit = float(spec.get('case_cpu_s', 300))
     signal.signal(signal.SIGVTALRM, _on_timer)
     n_cases = 0
+    timeouts = 0
     slow = []
     for idx, case in cases:
         t_case = time.time()
@@ -75,6 +76,10 @@ def run(spec):
                 col.violation('watchdog', 'call-did-not-return',
                               expected=f'monitored call returns within {cpu_limit:.0f} s CPU',
                               observed='still running')
+                timeouts += 1
+                if timeouts >= 2:       # already violated: do not burn hours on a tree that does not return
+                    col.count('shard_stopped_after_repeated_timeouts')
+                    break
         except MemoryError as e:
             col.depth = 0
             col.harness_error('MemoryError', e)
